@@ -43,3 +43,8 @@ package bootstrapping
 //@   nilable
 //@   havoc b
 //@   ensures implies(isnil(err), n == announced(b))
+
+// Read back in the order written (C08): see /verif/cmd/lvc/fieldordercheck.go
+//@ fieldorder EvaluationKeys
+//@   property C08
+//
